@@ -38,21 +38,23 @@ def real_shape(name: str):
     raise ValueError(name)
 
 
-def cfg_text(shape, *, limit=30, dummy=False, maxpairs=1, maxtimes=1, kinds=("soft", "fail_stop"), phases=("s", "t", "e"),
+def cfg_text(shape, *, limit=30, dummy=False, limits=None, managers=None, maxpairs=1, maxtimes=1, kinds=("soft", "fail_stop"), phases=("s", "t", "e"),
              gen=False, maxgen=12, invariants=True, view=False, liveness=False):
     s = ["CONSTANTS",
          "  Jobs <- MCJobs  Parents <- MCParents  Loc <- MCLoc  Sink <- MCSink",
-         "  Limit = %d  Dummy = %s  MaxGen = %d" % (limit, "TRUE" if dummy else "FALSE", maxgen),
+         "  Limit = %d  Dummy = %s  MaxGen = %d" % (max(limits or [limit]), "TRUE" if dummy else "FALSE", maxgen),
          "  Shape = \"%s\"  MaxPairs = %d  MaxTimes = %d" % (shape, maxpairs, maxtimes),
-         "  Kinds = {%s}  PhasesUsed = {%s}" % (", ".join('"%s"' % k for k in kinds), ", ".join('"%s"' % p for p in phases))]
+         "  Kinds = {%s}  PhasesUsed = {%s}" % (", ".join('"%s"' % k for k in kinds), ", ".join('"%s"' % p for p in phases)),
+         "  Limits = {%s}  Managers = {%s}" % (", ".join(str(x) for x in (limits or [limit])),
+                                               ", ".join("TRUE" if m else "FALSE" for m in (managers if managers is not None else [dummy])))]
     if liveness:
-        s += ["SPECIFICATION MCSpec", "PROPERTY Terminates"]
+        s += ["SPECIFICATION %s" % ("GenSpec" if gen else "MCSpec"), "PROPERTY Terminates"]
     else:
         s += ["INIT MCInit", "NEXT %s" % ("GenNext" if gen else "Next")]
     if view and not gen and not liveness:
         s.append("VIEW View")
     if invariants:
-        s += ["INVARIANT %s" % i for i in ("TypeOK", "VersionBound", "ExecBound", "DummyFirstFailure", "OutputThere", "OnlyNeeded", "GenBound")]
+        s += ["INVARIANT %s" % i for i in ("TypeOK", "VersionBound", "ExecBound", "DummyFirstFailure", "ExhaustedRaises", "OutputThere", "OnlyNeeded", "GenBound")]
     return "\n".join(s) + "\n"
 
 
@@ -72,7 +74,7 @@ def predictions(ctx, shape, **kw):
     out = {}
     for rec in r.printed_json():
         if isinstance(rec, dict) and "outcome" in rec:
-            out.setdefault(plan_key(rec["plan"]), []).append(rec)
+            out.setdefault(plan_key(rec["plan"]) + "@%s%s" % (rec["limit"], "D" if rec["dummy"] else ""), []).append(rec)
     ctx.require(out, "Recovery generation run emitted nothing (%s)" % shape)
     return out
 
@@ -109,9 +111,14 @@ def match(recs, o, *, use_hist=True):
     (unique) prediction.  Returns (record or None, reason)."""
     if use_hist and o["hist"] is not None:
         c = [r for r in recs if r["hist"] == o["hist"]]
-        if not c:
-            return None, "schedule %s is not a behaviour of the model (model schedules: %s)" % (o["hist"], [r["hist"] for r in recs][:6])
-        return c[0], ""
+        if c:
+            return c[0], ""
+        if o["outcome"] == "raised":
+            # a raising run: the engine goes on starting ready jobs for a moment after the failure that aborts it
+            c = [r for r in recs if r["outcome"] == "raised" and o["hist"][:len(r["hist"])] == r["hist"]]
+            if c:
+                return max(c, key=lambda r: len(r["hist"])), "prefix"
+        return None, "schedule %s is not a behaviour of the model (model schedules: %s)" % (o["hist"], [r["hist"] for r in recs][:4])
     sig = {json.dumps([r["outcome"], r["attempts"], r["version"]], sort_keys=True) for r in recs}
     if len(sig) != 1:
         return None, "model prediction is schedule dependent (%d variants) but the run was not serialized" % len(sig)
@@ -123,10 +130,12 @@ def diff(rec, o, *, versions=True):
     out = []
     if rec["outcome"] != o["outcome"]:
         out.append(("outcome", rec["outcome"], o["outcome"]))
+    late = set(o["hist"][len(rec["hist"]):]) if (o.get("hist") is not None and rec["outcome"] == "raised") else set()
     for x in sorted(rec["attempts"]):
         for ph in ("s", "t", "e"):
-            if rec["attempts"][x][ph] != o["attempts"][x][ph]:
-                out.append(("attempts:%s:%s" % (x, ph), rec["attempts"][x][ph], o["attempts"][x][ph]))
+            m, r = rec["attempts"][x][ph], o["attempts"][x][ph]
+            if (r < m) if x in late else (r != m):
+                out.append(("attempts:%s:%s" % (x, ph), m, r))
         if o["rows"].get(x, 0) != o["attempts"][x]["e"]:
             out.append(("execution_rows:%s" % x, o["attempts"][x]["e"], o["rows"].get(x, 0)))
     if versions and rec["outcome"] == "done":
@@ -136,7 +145,7 @@ def diff(rec, o, *, versions=True):
     return out
 
 
-def run_real(ctx, shape, plan_rec, *, limit=30, dummy=False, serial_seed=None, delay_seed=None, timeout=90.0, tag=""):
+def run_real(ctx, shape, plan_rec, *, limit=30, dummy=False, serial_seed=None, delay_seed=None, timeout=600.0, stall=12.0, tag=""):
     """One real execution of `plan_rec` on `shape`.  Returns (obs, exc): exc is a TimeoutError on watchdog."""
     from vh import aio
     from vh.sut import recov
@@ -148,7 +157,155 @@ def run_real(ctx, shape, plan_rec, *, limit=30, dummy=False, serial_seed=None, d
     try:
         obs, exc = aio.run(recov.run_plan(sh, real_plan(plan_rec, jobs), root, manager="dummy" if dummy else "rollback",
                                           max_retries=limit, delays=delays, placement=placement, deployments=deployments,
-                                          serial=serial), timeout=timeout)
+                                          serial=serial, stall=stall), timeout=timeout)
     finally:
         shutil.rmtree(root, ignore_errors=True)
     return obs, exc, jobs
+
+
+# ---------------------------------------------------------------------------------------------------
+# one bound case = one plan executed on the real engine and compared with the model
+# ---------------------------------------------------------------------------------------------------
+
+def role(shape, x):
+    if shape.startswith("pipe"):
+        n = int(shape[4])
+        return "src" if x == "a" else ("sink" if x == "abcde"[n - 1] else "mid")
+    return {"a": "src", "c": "sink"}.get(x, "elem")
+
+
+def plan_sig(shape, plan_rec, limit):
+    """Class of a failure plan: per failing job its role and the (phase:kind:count-vs-limit) items.  Used in
+    violation signatures, so that a known finding names a class of plans and nothing broader."""
+    per = {}
+    for k, v in sorted((plan_rec or {}).items()):
+        x, ph = k.split("|")
+        rel = "<" if int(v[0]) < limit else ">="
+        per.setdefault(x, []).append("%s:%s%s" % (ph, v[1], rel))
+    order = {"s": 0, "t": 1, "e": 2}
+    items = sorted("%s(%s)" % (role(shape, x), "+".join(sorted(fs, key=lambda f: order[f[0]]))) for x, fs in per.items())
+    fam = ("pipe" + ("x" if shape.endswith("x") else "")) if shape.startswith("pipe") else "scat"
+    return "%s:%s" % (fam, ",".join(items) or "none")
+
+
+def run_case(ctx, shape, recs, *, serial=True, seed=0, timeout=600.0):
+    from .. import tlc as _t
+    rec0 = recs[0]
+    limit, dummy = int(rec0["limit"]), bool(rec0["dummy"])
+    plan_rec = rec0["plan"] or {}
+    stale = sorted({x for r in recs for x in (r.get("stale") or [])})
+    case = {"shape": shape, "plan": plan_rec, "limit": limit, "dummy": dummy, "serial": serial, "seed": seed,
+            "sig": plan_sig(shape, plan_rec, limit) + (":stale-jobtoken(%s)" % ",".join(sorted({role(shape, x) for x in stale})) if stale else ""),
+            "stale": stale, "model_outcomes": sorted({r["outcome"] for r in recs})}
+    obs, exc, jobs = run_real(ctx, shape, plan_rec, limit=limit, dummy=dummy, serial_seed=(seed if serial else None),
+                              delay_seed=seed, timeout=timeout)
+    if isinstance(exc, TimeoutError):
+        raise _t.MachineryError("real run exceeded the outer time limit without being detected as hung (%s %s)" % (shape, plan_rec))
+    if exc is None and obs["outcome"] == "hang":
+        case["hang"] = True
+        case["events_tail"] = obs["events"][-8:]
+        return case
+    if exc is not None:
+        raise _t.MachineryError("real run crashed in the harness: %r (%s %s)" % (exc, shape, plan_rec))
+    if obs["harness_errors"]:
+        raise _t.MachineryError("harness error inside a real run: %s" % obs["harness_errors"][:3])
+    o = observed(obs, jobs)
+    rec, why = match(recs, o)
+    case.update({"hang": False, "o": o, "rec": rec, "why": why, "outputs": obs["outputs"], "left": obs["left"],
+                 "natural": obs["natural"], "error": obs["error"], "injected": obs["injected"]})
+    return case
+
+
+def model_runs(ctx, specs, *, check=True, live=False):
+    """specs: list of (shape, kwargs for cfg_text).  One TLC run per spec: checks the module's invariants on the
+    complete state graph of all plans AND emits the terminal states.  Returns {shape: {key: [records]}}."""
+    out = {}
+    for shape, kw in specs:
+        kw = dict(kw)
+        timeout = kw.pop("timeout", 2400)
+        lv = kw.pop("live", live)
+        text = cfg_text(shape, gen=True, invariants=check, liveness=lv, **kw)
+        r = ctx.tlc("Recovery", "MC_Recovery", "Gen_%s.cfg" % shape, files={"Gen_%s.cfg" % shape: text}, workers=1,
+                    coverage=True, timeout=timeout)
+        if lv:
+            ctx.count("liveness_checked:%s" % shape)
+        ctx.require(r.ok, "Recovery model violates %s on %s (specification error, not a verdict on the code):\n%s" % (
+            r.violated, shape, r.stdout[-2500:]))
+        ctx.require_coverage(r, ["RunPhase", "GenFinalize"])
+        d = out.setdefault(shape, {})
+        n = 0
+        seen = set()
+        for rec in r.printed_json():
+            if isinstance(rec, dict) and "outcome" in rec:
+                js = json.dumps(rec, sort_keys=True)
+                if js in seen:
+                    continue
+                seen.add(js)
+                d.setdefault(plan_key(rec["plan"]) + "@%s%s" % (rec["limit"], "D" if rec["dummy"] else ""), []).append(rec)
+                n += 1
+        ctx.require(n > 0, "Recovery generation run emitted nothing (%s)" % shape)
+        ctx.count("model_plans:%s" % shape, len(d))
+        ctx.count("model_terminal_states:%s" % shape, n)
+    return out
+
+
+def liveness(ctx, specs):
+    for shape, kw in specs:
+        kw = dict(kw)
+        timeout = kw.pop("timeout", 2400)
+        text = cfg_text(shape, liveness=True, invariants=False, **kw)
+        r = ctx.tlc("Recovery", "MC_Recovery", "Live_%s.cfg" % shape, files={"Live_%s.cfg" % shape: text}, timeout=timeout)
+        ctx.require(r.ok, "Recovery model: liveness `Terminates` fails on %s (specification error):\n%s" % (shape, r.stdout[-2500:]))
+        ctx.count("liveness_states:%s" % shape, r.distinct)
+
+
+def expected_outputs(ctx, shape, cache={}):
+    """Outputs of the failure-free run of the same workflow on the real engine (content of files, never paths)."""
+    if shape not in cache:
+        from .. import tlc as _t
+        obs, exc, jobs = run_real(ctx, shape, {}, limit=30, serial_seed=None, delay_seed=None, timeout=90)
+        if exc is not None or obs["outcome"] != "return":
+            raise _t.MachineryError("failure-free run of %s did not complete: %r %s" % (shape, exc, obs and obs.get("error")))
+        cache[shape] = obs["outputs"]
+    return cache[shape]
+
+
+# ---------------------------------------------------------------------------------------------------
+# plan selection shared by C16 and C18 (max_retries far above every count: the hypothesis of C16 holds by
+# construction and the statement's retry limit never interferes - DESIGN.md, interpretation note)
+# ---------------------------------------------------------------------------------------------------
+BIG_LIMIT = 30
+
+
+def c16_specs(ctx):
+    if ctx.quick:
+        return [("pipe3", dict(limit=BIG_LIMIT, maxpairs=2, maxtimes=2), 44),
+                ("pipe4x", dict(limit=BIG_LIMIT, maxpairs=1, maxtimes=2), 22),
+                ("scat2", dict(limit=BIG_LIMIT, maxpairs=2, maxtimes=1), 36),
+                ("scat3", dict(limit=BIG_LIMIT, maxpairs=1, maxtimes=2), 26)]
+    return [("pipe1", dict(limit=BIG_LIMIT, maxpairs=3, maxtimes=3), 120),
+            ("pipe2", dict(limit=BIG_LIMIT, maxpairs=3, maxtimes=3), 260),
+            ("pipe3", dict(limit=BIG_LIMIT, maxpairs=2, maxtimes=2), 613),
+            ("pipe4x", dict(limit=BIG_LIMIT, maxpairs=2, maxtimes=2), 320),
+            ("pipe5", dict(limit=BIG_LIMIT, maxpairs=2, maxtimes=1), 260),
+            ("scat1", dict(limit=BIG_LIMIT, maxpairs=2, maxtimes=2), 150),
+            ("scat2", dict(limit=BIG_LIMIT, maxpairs=2, maxtimes=2), 420),
+            ("scat2n", dict(limit=BIG_LIMIT, maxpairs=2, maxtimes=1), 120),
+            ("scat3", dict(limit=BIG_LIMIT, maxpairs=2, maxtimes=1), 330),
+            ("scat4", dict(limit=BIG_LIMIT, maxpairs=1, maxtimes=2), 73)]
+
+
+def c16_cases(ctx, preds, specs):
+    """(shape, key, serial): every soft-only plan of a scatter shape runs FREE (real concurrency, seeded completion
+    delays), every plan with a fail-stop on a scatter shape runs under the sequential discipline; pipelines run free."""
+    rng = ctx.rng("plans")
+    out = []
+    for shape, _kw, n in specs:
+        keys = sorted(preds[shape])
+        rng.shuffle(keys)
+        keys = sorted(keys[:n])
+        for k in keys:
+            plan = preds[shape][k][0]["plan"] or {}
+            failstop = any(v[1] == "fail_stop" for v in plan.values())
+            out.append((shape, k, shape.startswith("scat") and failstop))
+    return out
